@@ -145,7 +145,7 @@ def readBitpacked (buf : List Nat) (ip : Nat) (header width : Nat) (o : Out) (it
     K (Out × Nat) := do
   let count := (header / 2) * 8
   if width = 1 ∧ itemsize = 1 then readBitpacked1 buf ip count o else
-  if width ≥ 32 then .error (.shift width 32) else
+  if width ≥ 31 then .error (.shift width 32) else   -- `_mask_for_bits`: (1 << 31) - 1 overflows int32, 1 << 32 is out of range
   let capItems := o.cap / itemsize
   let b0 ← rd buf ip
   let s0 : BP := { ip := ip + 1, data := b0 &&& 0xff, left := 8, right := 0, count := count, emitted := [] }
